@@ -1169,3 +1169,13 @@ theorem smooth_total {h : Heap} (t : Nat) (hg : Good2 h) : ∃ h', smooth h t = 
   exact ⟨h', by unfold smooth; simp only [hd]; exact hs⟩
 
 end BS.Heap
+
+namespace BS.Heap
+
+/-- outside the smoothed tags every children list looks exactly as before (same objects, same classes, same texts) -/
+theorem SmoothFrame.view_others {h h' : Heap} {S : Nat → Prop} (hg : Good h) (f : SmoothFrame h h' S) {q : Nat}
+    (hq : ¬ S q) : idView h' q = idView h q ∧ view h' q = view h q :=
+  ⟨idView_congr (f.others q hq) (fun k hk => f.old k (good_kid_lt_next hg hk)),
+   view_congr (f.others q hq) (fun k hk => f.old k (good_kid_lt_next hg hk))⟩
+
+end BS.Heap
